@@ -66,3 +66,5 @@ def check(run):
     facts = [('C07-tree-lemma::fact#%d' % i, src, label)
              for i, (label, src) in enumerate(FACTS)]
     run.verify_functions(TARGETS, lemmas=False, facts=facts)
+    from checks.main import json_bounded
+    json_bounded(run)
